@@ -5,6 +5,7 @@ import (
 	"go/constant"
 	"go/token"
 	"go/types"
+	"os"
 	"strings"
 
 	"golang.org/x/tools/go/ssa"
@@ -615,3 +616,5 @@ func allocWriters(al *ssa.Alloc) []ssa.Value {
 	walk(al)
 	return out
 }
+
+func readFile(p string) ([]byte, error) { return os.ReadFile(p) }
